@@ -258,7 +258,7 @@ def make_search(nlines, nterms):
         chk = [all, any][en.choice("check", 2)]
         num = [None, 0, 1, 2][en.choice("num", 4)]
         reverse = en.flag("reverse")
-        entry = ["get", "contains", "keep_scan", "last_scan", "token_scan"][en.choice("entry", 5)]
+        entry = ["get", "contains", "keep_scan", "last_scan", "token_scan", "lazy_keep_scan"][en.choice("entry", 6)]
         case = lambda mv: {"kind": "search", "M": [[mv.bool(M[i][t]) for t in terms] for i in range(nlines)], "query": query,  # noqa
                            "check": chk.__name__, "num": num, "reverse": reverse, "entry": entry}
         en.note_sample(case)
@@ -283,6 +283,23 @@ def search_run(lines, query, chk, num, reverse, entry, has):
         L.last_scan("res", query, check=chk)
     elif entry == "token_scan":
         L.token_scan("res", query, check=chk)
+    if entry == "lazy_keep_scan":
+        # the lazily scanning variant: an earlier object of the same class has already been scanned for the same key
+        class LL(C.LazyLogFileOutput):
+            pass
+        LL.scanners = {}
+        LL.keep_scan("res", query, check=chk, num=num, reverse=reverse)
+        first = LL(ctx(["some other log line"]))
+        first.do_scan("res")
+        log = LL(ctx(lines))
+        log.do_scan("res")
+        got = [next(i for i, l in enumerate(lines) if l is d["raw_message"]) for d in log.res] if hasattr(log, "res") else None
+        hits = [i for i in range(n) if match[i]]
+        if num is not None:
+            hits = hits[-num:] if (reverse and num) else hits[:num]
+            if reverse and num == 0:
+                hits = []
+        return got, hits
     log = L(ctx(lines))
     idx_of = lambda d: next(i for i, l in enumerate(lines) if l is d["raw_message"])  # noqa
     if entry == "get":
